@@ -437,6 +437,10 @@ func runScan(v scVec) scOut {
 	}
 	var mu sync.Mutex
 	attempts := 0
+	limit := 8
+	if v.Cfg.Bits < 32 {
+		limit += 1 << uint(32-v.Cfg.Bits)
+	}
 	var last time.Time
 	closedAt := -1
 	fault := func(at int) string {
@@ -451,6 +455,9 @@ func runScan(v scVec) scOut {
 		mu.Lock()
 		defer mu.Unlock()
 		attempts++
+		if attempts > limit { // a walk that leaves the LAN: stop it, the list of requests written shows it
+			return errRefused
+		}
 		switch fault(attempts) {
 		case "temp":
 			return tempErr{}
